@@ -3,7 +3,7 @@
 import numpy as np
 from hypothesis import strategies as st
 
-from .. import build, e2e, geom, pipeline, strat, topo
+from .. import ffmodel, build, e2e, geom, pipeline, strat, topo
 from ..core import Part, Result
 
 ID = "C13"
@@ -168,6 +168,15 @@ def check(case):
                 res.bad("C13:bridged-keeps-HG", f"CYS {k}: bridged (SG-SG {d:.3f} A) but thiol hydrogen present")
             if pg != ("chain",) + tuple(p[0]):
                 res.bad("C13:partner-pointer", f"CYS {k}: partner reference {pg}, expected SG of {p[0]}")
+            # "treated as bridged" includes the parameters: the sulfur and its carbon carry the force field's
+            # values for the bridged state wherever the (pinned) support matrix says the force field has them
+            entry = A.by_group.get(("chain",) + tuple(k))
+            if entry is not None and core == "CYX":
+                gold = ffmodel.golden_support().get(ff, {}).get(getattr(entry["obj"], "ffname", ""), [])
+                lost = [nm for nm in ("SG", "CB") if nm in gold and nm in entry["atoms"] and id(entry["atoms"][nm]) in A.missing_ids]
+                if lost:
+                    res.bad("C13:bridged-unparameterised", f"CYS {k} in state {entry['obj'].ffname} ({ff}): bridged, but {lost} carry no "
+                            f"parameters although the force field defines them")  # fmt: skip
         elif not p:
             if core == "CYX":
                 res.bad("C13:false-bridge", f"CYS {k}: no sulfur within {LIMIT} A but treated as bridged ({ff})")
